@@ -231,8 +231,14 @@ class Renamed(object):
     def __setattr__(self, k, v):
         setattr(self._ctx, k, v)
 
-    def rule(self, rid, *a, **k):
-        return self._ctx.rule(self._r(rid), *a, **k)
+    def rule(self, rid, desc, min_instances=1):
+        # several rule ids of the home property may be folded into one id here: their instance minimum is enforced in the home property, here the
+        # borrowed rule only has to match at all
+        new = self._r(rid)
+        if new in self._ctx.rules and new != rid:
+            self._ctx.rules[new]['desc'] += ' | ' + desc if desc not in self._ctx.rules[new]['desc'] else ''
+            return None
+        return self._ctx.rule(new, desc, 1 if new != rid else min_instances)
 
     def holds(self, rid, *a, **k):
         return self._ctx.holds(self._r(rid), *a, **k)
